@@ -105,3 +105,13 @@ Theorem upgrade_installs_the_regenerated_definition : forall c ls o force start_
   upgrade_installed_ctx (after_life c ls) o force start_service = upgrade_ctx (after_life c ls) o /\
   x_autostart (upgrade_installed_ctx (after_life c ls) o force start_service) = x_autostart (install_ctx c env).
 Proof. intros. split; [reflexivity|]. destruct (lifecycle_lemma c ls) as (_ & H & _). destruct (H env o) as (_ & _ & _ & A & _). exact A. Qed.
+
+(* where the node looks for its first peers, given the peers arguments the manager wrote: with --testnet the
+   mainnet contacts are never queried, whatever else is (not) found; a genesis (--first) or --local node queries
+   nothing; without --network-contacts-url no contacts URL is queried *)
+Theorem testnet_never_queries_mainnet : forall c usable cached from_urls count,
+  (c_testnet c = true -> ~ In SrcMainnet (cfg_sources c usable cached from_urls count)) /\
+  (c_first c = true -> cfg_sources c usable cached from_urls count = []) /\
+  (c_local c = true -> cfg_sources c usable cached from_urls count = []) /\
+  (c_urls c = [] -> ~ In SrcUrls (cfg_sources c usable cached from_urls count)).
+Proof. exact sources_lemma. Qed.
